@@ -845,7 +845,7 @@ class StackWorld(object):
         n_timeouts = len([c for c in self.tracker.order if c.completions and
                           exc_name(c.completions[0][2]) == 'TimeoutError'])
         bound = base + self.peak_outstanding + n_timeouts + 1
-        if st['max_tag'] > bound and not self.cfg.get('adversarial'):
+        if st['max_tag'] > bound and not self.cfg.get('adversarial') and not self.clock_steps:
           REC.violation('C11', 'tags_not_reused',
                         'conn %s: highest tag %d with tag base %d, peak %d concurrent calls and %d timeouts' % (
                           conn.id, st['max_tag'], base, self.peak_outstanding, n_timeouts))
